@@ -541,6 +541,33 @@ static void emit_block(BitWriter &bw, const BlockSpec &spec, int level, Rng &rng
   for (int t = 0; t < ntab; t++) {
     lens[t] = random_code(rng, alpha, spec.deep);
   }
+  if (spec.long_codes) {
+    // every symbol that actually occurs gets a 20-bit code (a group of 50 then needs the full 1000 bits);
+    // the short codes go to symbols that are in the alphabet but never occur
+    std::vector<bool> used(alpha, false);
+    unsigned u = 0;
+    for (auto sy : syms) if (!used[sy]) { used[sy] = true; u++; }
+    unsigned mp = 1; while ((1u << mp) < u) mp++;
+    unsigned count20 = 1u << mp, tcomb = 20 - mp;
+    if (tcomb + count20 <= alpha) {
+      std::vector<uint8_t> depth;                     // leaves for the unused symbols
+      for (unsigned d = 1; d <= tcomb; d++) depth.push_back((uint8_t)d);
+      for (unsigned k = u; k < count20; k++) depth.push_back(20);
+      while (depth.size() < alpha - u) {              // split some unused leaf that is not yet at depth 20
+        size_t pick = depth.size();
+        for (size_t tries = 0; tries < 8 && pick == depth.size(); tries++) { size_t c = rng.below(depth.size()); if (depth[c] < 20) pick = c; }
+        if (pick == depth.size()) for (size_t c = 0; c < depth.size(); c++) if (depth[c] < 20) { pick = c; break; }
+        if (pick == depth.size()) break;
+        depth[pick]++; depth.push_back(depth[pick]);
+      }
+      if (depth.size() == alpha - u) {
+        std::vector<uint8_t> l(alpha, 20);
+        size_t di = 0;
+        for (unsigned i = 0; i < alpha; i++) if (!used[i]) l[i] = depth[di++];
+        for (int t = 0; t < ntab; t++) lens[t] = l;
+      }
+    }
+  }
   unsigned ngroups = (unsigned)((syms.size() + 49) / 50);
   if (ngroups == 0) ngroups = 1;
   std::vector<uint8_t> sel(ngroups);
@@ -752,6 +779,7 @@ std::vector<StreamSpec> random_specs(Rng &rng, int max_streams, int max_blocks, 
       bs.zigzag = rng.below(3) == 0 ? (int)rng.below(12) : 0;
       bs.start_mode = (int)rng.below(2);
       bs.deep = rng.below(4) == 0;
+      if (rng.below(10) == 0) { bs.long_codes = 1; bs.extra_inuse = 30 + (int)rng.below(60); }
       ss.blocks.push_back(bs);
     }
     if (want_defect && s == defect_stream) {
@@ -786,12 +814,12 @@ static const uint64_t PATTERN = 0x314159265359ull;
 // 0xFF is EOB, 0x00/0x01 are RUNA/RUNB and every other byte is an MTF index.  *Any* byte
 // string without 0xFF is therefore a legal symbol sequence, which lets us spell the 48-bit
 // block-header pattern (or a whole inner block) inside coded data.
-static void write_flat_block(BitWriter &bw, const Bytes &symbols, uint32_t crc, uint64_t *crcpos) {
+static void write_flat_block(BitWriter &bw, const Bytes &symbols, uint32_t crc, uint64_t *crcpos, uint32_t origptr = 0) {
   bw.put(PATTERN >> 24, 24); bw.put(PATTERN & 0xFFFFFF, 24);
   if (crcpos) *crcpos = bw.pos;
   bw.put(crc, 32);
   bw.put(0, 1);            // not randomised
-  bw.put(0, 24);           // primary index 0
+  bw.put(origptr, 24);     // primary index
   bw.put(0xFFFF, 16);
   for (int i = 0; i < 15; i++) bw.put(0xFFFF, 16);
   bw.put(0xFFFC, 16);      // 254 values in use (all but 0xFE, 0xFF)
@@ -803,6 +831,35 @@ static void write_flat_block(BitWriter &bw, const Bytes &symbols, uint32_t crc, 
   for (int t = 0; t < 2; t++) { bw.put(8, 5); for (int i = 0; i < 256; i++) bw.put(0, 1); }
   for (unsigned char c : symbols) bw.put(c, 8);
   bw.put(0xFF, 8);
+}
+
+// One stream holding one block with exactly nsyms non-run symbols (so nsyms decoded bytes before the final
+// run-length decoding and nsyms+1 coded symbols): nsyms = 900000 at level 9 is the largest legal block and needs
+// all 18001 coding groups; nsyms = level*100000+1 overflows the declared size by one byte.
+GenOut gen_full_block(Rng &rng, size_t nsyms, int level, bool max_origptr) {
+  Bytes symbols(nsyms, 0);
+  for (size_t i = 0; i < nsyms; i++) symbols[i] = (char)(2 + rng.below(253));
+  uint32_t op = max_origptr && nsyms ? (uint32_t)(nsyms - 1) : (uint32_t)rng.below(nsyms ? nsyms : 1);
+  uint32_t crc = 0;
+  {
+    BitWriter t; t.put('B', 8); t.put('Z', 8); t.put('h', 8); t.put('0' + level, 8);
+    write_flat_block(t, symbols, 0, nullptr, op);
+    t.put(0x177245385090ull >> 24, 24); t.put(0x177245385090ull & 0xFFFFFF, 24); t.put(0, 32); t.align();
+    DecResult d = refdec(t.b);
+    if (!d.streams.empty() && !d.streams[0].blocks.empty()) crc = d.streams[0].blocks[0].crc_calc;
+  }
+  GenOut go;
+  BitWriter bw; bw.put('B', 8); bw.put('Z', 8); bw.put('h', 8); bw.put('0' + level, 8);
+  uint64_t cp;
+  go.block_bitpos.push_back(bw.pos);
+  write_flat_block(bw, symbols, crc, &cp, op);
+  go.crc_fields.push_back({cp, 0, 0, 0});
+  bw.put(0x177245385090ull >> 24, 24); bw.put(0x177245385090ull & 0xFFFFFF, 24);
+  go.crc_fields.push_back({bw.pos, 1, 0, -1});
+  bw.put(crc, 32);      // combined CRC of a single block is that block's CRC
+  bw.align();
+  go.bytes = bw.b;
+  return go;
 }
 
 GenOut gen_planted(Rng &rng, int *kind_out) {
